@@ -376,6 +376,18 @@ def run(ck: Check):
                             "max_vtime": 600.0, "family": "static-membership"})
                 nstatic += 1
     ck.extra["static_membership_runs"] = nstatic
+    # pattern subscription: a topic matching the members' pattern is created while the group is stable / rebalancing;
+    # after the next metadata refresh the group must rebalance once and own the new topic's partitions too
+    for j, at in enumerate([0.6, 1.0, 1.45, 1.55, 1.7, 2.0, 2.6, 3.2]):
+        sc = base(f"pattern-{j}", {}, auto_commit=bool(j % 2))
+        for c in sc["consumers"]:
+            c["pattern"] = "^t[01]$"
+            c["topics"] = ["t0", "t1"]          # what the pattern matches once t1 exists
+            c["metadata_max_age_ms"] = 300
+            c["assignors"] = [["range"], ["roundrobin"], ["sticky"]][j % 3]
+        sc["cluster_events"] = [{"at": at, "op": "create_topic", "topic": "t1", "n": 3}]
+        sc["family"] = "pattern-new-topic"
+        scs.append(sc)
     # older broker releases: random scenarios and the two-member base run under every profile
     from simkit import profiles
     rng_old = random.Random(ck.seed * 7121 + 606)
